@@ -13,7 +13,7 @@ FIXTURES = os.path.join(VERIF_DIR, "fixtures")
 
 REGISTRY: dict[str, Callable[[Run, Program], None]] = {}
 CONTROLS: dict[str, list[tuple[str, Callable[[Run, Program], object], list[tuple[str, str]]]]] = {}
-NOT_APPLICABLE = {"C01", "C10"}
+NOT_APPLICABLE = {"C10"}
 
 
 def prop(pid: str):
@@ -615,6 +615,29 @@ def check_c17(run: Run, prog: Program) -> None:
     run.floor("polygon measure formulas read (found, decided or not)", n3, 4)
     n4 = quadforms.rule_simplex_volume(run, prog)
     run.floor("simplex volume cases read (found, decided or not)", n4, 4)
+
+
+# ================================================================================================ C01
+@prop("C01")
+def check_c01(run: Run, prog: Program) -> None:
+    from geolint import quadforms
+
+    run.title = "join and meet return exactly the span / the intersection of their arguments"
+    run.clause = (
+        "decides the all-1-tensor branch of the duality dispatcher as polynomial identities (E19.join): _join_meet_duality is interpreted on points / lines / planes "
+        "with symbolic coordinates; the tensor diagram it builds is evaluated as C05 states it (an edge sums the first unused covariant index of its source with the "
+        "first unused contravariant index of its target - that the library's bookkeeping does exactly this is what E14 decides under C05) with the Levi-Civita tensor as "
+        "the table of permutation signs. join(p, q), meet(l, m) in the plane and join(p, q, r), meet(e, f, g) in 3-space are incident with every argument, do not vanish "
+        "identically, and change only by a scalar with the order of the arguments; the round trips meet(join(p, q), join(p, r)) ~ p and join(meet(l, m), meet(l, n)) ~ l "
+        "hold. NOT decided: lines of 3-space (the branches over 2-tensors: line with plane, subspace with point, coplanar lines after Blinn), the power-of-two "
+        "normalisation (taken to be a positive scalar), the entries of LeviCivitaTensor, the co-/contravariant switch of 3D lines, and floating-point exactness."
+    )
+    run.trusted += ["LeviCivitaTensor(n) holds the permutation signs", "_divide_by_power_of_two multiplies by a positive scalar",
+                    "TensorDiagram.calculate contracts as C05 states (decided separately by E14)"]
+    n = quadforms.rule_join_meet(run, prog)
+    run.floor("join / meet identities read (found, decided or not)", n, 6)
+    prog.func("join")
+    prog.func("meet")
 
 
 # ================================================================================================ C15
